@@ -10,6 +10,8 @@ class P(vlib.Prop):
     stages = (
         dict(name="unify", cmd="c09", args=lambda t, s: ["-stage", "unify"]),
         dict(name="provname", cmd="c09", args=lambda t, s: ["-stage", "provname"]),
+        dict(name="api", cmd="c09", args=lambda t, s: ["-stage", "api"]),
+        dict(name="cli", cmd="c09", args=lambda t, s: ["-stage", "cli"]),
     )
     assumptions = ()
     level_text = ""
